@@ -278,6 +278,48 @@ def check_self_alias(acc: core.Acc, a: tuple) -> None:
     acc.nontrivial += 1
 
 
+def check_mutated_reuse(acc: core.Acc, a: tuple, b: tuple) -> None:
+    """History: rotate by an object, edit that same object in place, rotate again - the second result must follow the edit."""
+    case = {'reuse_a': list(a), 'reuse_b': list(b)}
+    rb = ref_matrix(*b)
+    v = (1.0, 2.0, 3.0)
+    want = vec_mat(v, rb)
+    edits = {
+        'setters': lambda ang: (setattr(ang, 'pitch', b[0]), setattr(ang, 'yaw', b[1]), setattr(ang, 'roll', b[2])),
+        'items': lambda ang: (ang.__setitem__(0, b[0]), ang.__setitem__('y', b[1]), ang.__setitem__('roll', b[2])),
+    }
+    for ename, edit in edits.items():
+        for vname, mkv in VEC_TYPES.items():
+            acc.evaluations += 1
+            ang = Angle(*a)
+            first = mkv(v) @ ang
+            if vdiff(tuple(first), vec_mat(v, ref_matrix(*a))) > 1e-9:
+                return   # reported by check_angle already
+            edit(ang)
+            second = mkv(v) @ ang
+            if vdiff(tuple(second), want) > 1e-9:
+                acc.fail('stale_after_inplace_edit', case, f'{vname} @ Angle{a}, then the same Angle edited in place ({ename}) to {b}: second rotation gives '
+                         f'{tuple(second)}, expected {want}', form=f'{vname}@Angle', edit=ename)
+    # the same with a Matrix edited by @= and an Angle edited by @= / transform()
+    acc.evaluations += 1
+    m = Matrix.from_angle(*a)
+    _ = Vec(*v) @ m
+    m @= Matrix.from_angle(*b)
+    got = Vec(*v) @ m
+    want2 = vec_mat(v, mat_prod(ref_matrix(*a), rb))
+    if vdiff(tuple(got), want2) > 1e-9:
+        acc.fail('stale_after_inplace_edit', case, f'Vec @ Matrix{a}, Matrix @= Matrix{b}, Vec @ Matrix again gives {tuple(got)}, expected {want2}', form='Vec@Matrix', edit='@=')
+    acc.evaluations += 1
+    ang = Angle(*a)
+    _ = Vec(*v) @ ang
+    ang @= Angle(*b)
+    got = Vec(*v) @ ang
+    h = math.hypot(mat_prod(ref_matrix(*a), rb)[0][0], mat_prod(ref_matrix(*a), rb)[0][1])
+    if h > 0.001 and vdiff(tuple(got), want2) > 1e-9:
+        acc.fail('stale_after_inplace_edit', case, f'Vec @ Angle{a}, Angle @= Angle{b}, Vec @ Angle again gives {tuple(got)}, expected {want2}', form='Vec@Angle', edit='@=')
+    acc.nontrivial += 1
+
+
 def lattice_g1():
     steps = [15.0 * i for i in range(24)]
     return itertools.product(steps, steps, steps)
@@ -308,6 +350,7 @@ def shard(spec) -> core.Acc:
             check_self_alias(acc, a)
             for b in b_list:
                 check_pair(acc, a, b)
+                check_mutated_reuse(acc, a, b)
         acc.sample({'a': list(a_list[0]), 'b': list(b_list[0])}, 1)
     return acc
 
@@ -338,7 +381,9 @@ def run(ctx: core.Ctx) -> None:
 
 def replay(case: dict) -> list:
     acc = core.Acc()
-    if 'self_alias' in case:
+    if 'reuse_a' in case:
+        check_mutated_reuse(acc, tuple(case['reuse_a']), tuple(case['reuse_b']))
+    elif 'self_alias' in case:
         check_self_alias(acc, tuple(case['self_alias']))
     elif 'angle' in case:
         check_angle(acc, *case['angle'], True)
